@@ -506,7 +506,9 @@ def run(ctx):
                  "non-trivial = distinct parsed schema values on which ParseSchema succeeded; each text goes through tlparser.ParseSchema and the extracted Parser.v parse "
                  "(classes and every name/id/parameter/result compared), then createInternalSchema vs Classify.v; a subset is generated twice by the tlgen binary, compiled, reflected and compared with Classify.v's descriptors"
                  % (3 if ctx.tier == "thorough" else 2),
-         "samples": samples, "input_distribution": stats, "coqchk": chk, "result_classes": classes, "cursor_method_sequences": cursor_cases,
+         "samples": samples, "input_distribution": stats, "coqchk": chk,
+         "termination": "C14_parse_terminates: the parser model never exhausts its (linear) loop budget, for every byte string; "
+                        "on the implementation side every ParseSchema call runs under a 5 s watchdog and a 'hang' is a violation with the input as replay", "result_classes": classes, "cursor_method_sequences": cursor_cases,
          "disagreements_checked": disagreements, "generator": cst,
          "projection": "result class ok/err/panic/hang; for ok every definition: section, name, id, result type, vector marker, parameters (name, type, vector, conditional, bit) in order; "
                        "classification per type name; per constructor of the compiled package: id, Go type name, fields in order with kind and tl tag, FlagIndex, Implements methods; "
